@@ -161,7 +161,7 @@ pub fn run(ctx: &Ctx) -> (Report, Meta) {
     .floor("runs_pure_relative", 60);
 
     // ------------------------------------------------------------------ (a) closed form sweep
-    let n = ctx.size(20_000, 2_000_000);
+    let n = ctx.size(80_000, 2_000_000);
     let rep = par_for(n, "C01", |i, rep| {
         let case_id = format!("closed/{}", i);
         if !ctx.want(&case_id) {
@@ -321,7 +321,7 @@ pub fn run(ctx: &Ctx) -> (Report, Meta) {
     });
 
     // ------------------------------------------------------------------ (b) tolerance ladders
-    let nl = ctx.size(300, 20_000);
+    let nl = ctx.size(1_200, 20_000);
     let rep_b = par_for(nl, "C01", |i, rep| {
         let case_id = format!("ladder/{}", i);
         if !ctx.want(&case_id) {
@@ -496,7 +496,7 @@ pub fn run(ctx: &Ctx) -> (Report, Meta) {
     }
 
     // ------------------------------------------------------------------ (d) random dissipative fields vs GBS
-    let nd = ctx.size(400, 20_000);
+    let nd = ctx.size(1_600, 20_000);
     let rep_d = par_for(nd, "C01", |i, rep| {
         let case_id = format!("field/{}", i);
         if !ctx.want(&case_id) {
